@@ -80,6 +80,37 @@ func c06Spec(rng *rand.Rand, i int) *SessSpec {
 			sp.Steps = append(sp.Steps, Step{Op: "reack"})
 		}
 	}
+	// a stream that ends with a recoverable status is re-opened on the same observer; what changes across the re-open must
+	// show in the offsets: the branch (fail-over before the end) or the snapshot layout (the rest of an interrupted snapshot
+	// is announced under a marker of its own that ends where the interrupted one ended)
+	var plain []int
+	for vb := 0; vb < sp.NumVB; vb++ {
+		if _, rb := sp.Rollbacks[vb]; !rb {
+			plain = append(plain, vb)
+		}
+	}
+	if len(plain) > 0 && sp.AutoReset == "" {
+		vb := plain[rng.Intn(len(plain))]
+		doc := func() ItemSpec {
+			ctr++
+			return ItemSpec{K: "m", Key: []byte(fmt.Sprintf("ro%d", ctr)), Val: []byte("{}")}
+		}
+		switch rng.Intn(4) {
+		case 0:
+			sp.Steps = append(sp.Steps, Step{Op: "barrier"}, Step{Op: "ack", Sel: "random", N: 2}, Step{Op: "failover", VB: vb, N: 1 + rng.Intn(9)}, Step{Op: "end", VB: vb, St: transientStatus[rng.Intn(4)]},
+				Step{Op: "waitreopen", VB: vb, N: 2}, Step{Op: "append", VB: vb, Items: []ItemSpec{doc(), doc()}}, Step{Op: "barrier"}, Step{Op: "ack", Sel: "newest", N: 2}, Step{Op: "commit"})
+		case 1:
+			extra := 1 + rng.Intn(3)
+			first := doc()
+			first.SnapExtra = extra
+			rest := []ItemSpec{}
+			for k := 0; k < extra; k++ {
+				rest = append(rest, doc())
+			}
+			sp.Steps = append(sp.Steps, Step{Op: "barrier"}, Step{Op: "append", VB: vb, Items: []ItemSpec{first, doc(), doc()}}, Step{Op: "barrier"}, Step{Op: "ack", Sel: "newest", N: 1},
+				Step{Op: "end", VB: vb, St: transientStatus[rng.Intn(4)]}, Step{Op: "waitreopen", VB: vb, N: 2}, Step{Op: "append", VB: vb, Items: rest}, Step{Op: "barrier"}, Step{Op: "ack", Sel: "newest", N: 2}, Step{Op: "commit"})
+		}
+	}
 	// late acknowledgements: everything has arrived (several newer markers), then old events are acknowledged
 	sp.Steps = append(sp.Steps, Step{Op: "barrier"}, Step{Op: "ack", Sel: "random", N: 2 + rng.Intn(4)}, Step{Op: "commit"},
 		Step{Op: "ack", Sel: "oldest", N: 3}, Step{Op: "commit"}, Step{Op: "barrier"})
